@@ -751,3 +751,25 @@ Proof.
     intros ->. unfold is_default in Hd'. rewrite String.eqb_refl in Hd'. discriminate.
   - rewrite <- find_default_assoc. destruct (find _ kv) as [p|]; reflexivity.
 Qed.
+
+(* the three refutations of the pinned code, in the form Props/C03.v states them *)
+Lemma orig_refuted_empty_map :
+  exists dims t, WF dims None t /\ load_orig dims t <> Some (load_spec dims t).
+Proof.
+  exists dims12, witness_a. destruct orig_refuted_a as [W [S O]]. split; [exact W|].
+  rewrite S, O. discriminate.
+Qed.
+
+Lemma orig_refuted_nested_raw_map :
+  exists dims t, WF dims None t /\ load_orig dims t <> Some (load_spec dims t).
+Proof.
+  exists dims12, witness_b. destruct orig_refuted_b as [W [S O]]. split; [exact W|].
+  rewrite S, O. discriminate.
+Qed.
+
+Lemma orig_refuted_unselected_branch :
+  exists dims t, WF dims None t /\ load_orig dims t <> Some (load_spec dims t).
+Proof.
+  exists dims12, witness_c. destruct orig_refuted_c as [W [S O]]. split; [exact W|].
+  rewrite S, O. discriminate.
+Qed.
